@@ -501,4 +501,56 @@ theorem except_cases {ε α : Type} (r : Except ε α) : (∃ a, r = .ok a) ↔ 
 
 end erase
 
+/-! ### G. the error-carrying key mapping and the builder's `Option` view of it -/
+section optionView
+open BarterModel.Index (Kind Units Spec)
+
+set_option hygiene false in
+local macro "spec_part" : tactic => `(tactic|
+  (cases sp with
+   | none => simp [specMapE, BarterModel.Index.specMapOpt, Except.toOption, eraseNames]
+   | some s =>
+     obtain ⟨pm, tk, u, qm, qi, nm⟩ := s
+     cases u with
+     | asset a =>
+       cases ha : f a <;>
+         simp [specMapE, BarterModel.Index.specMapOpt, BarterModel.Index.Units.mapOpt, Except.toOption,
+           Except.map, ha, eraseNames]
+     | contract =>
+       simp [specMapE, BarterModel.Index.specMapOpt, BarterModel.Index.Units.mapOpt, Except.toOption,
+         eraseNames]
+     | quote =>
+       simp [specMapE, BarterModel.Index.specMapOpt, BarterModel.Index.Units.mapOpt, Except.toOption,
+         eraseNames]))
+
+theorem mapAssetKey_option_view {ε E A B : Type} (f : A → Except ε B) (i : Instrument E A) :
+    (i.mapAssetKeyWithLookup f).toOption.map eraseNames =
+      (eraseNames i).mapAssetKeyWithLookup (fun a => (f a).toOption) := by
+  obtain ⟨e, ni, ne, b, q, qa, k, sp⟩ := i
+  simp only [Instrument.mapAssetKeyWithLookup, BarterModel.Index.Instrument.mapAssetKeyWithLookup,
+    eraseNames]
+  cases hb : f b <;> simp only [Except.toOption, Option.map_none]
+  cases hq : f q <;> simp only [Option.map_none]
+  cases k with
+  | spot =>
+    simp only [kindMapE, BarterModel.Index.Kind.mapOpt]
+    spec_part
+  | perpetual z a0 =>
+    cases h0 : f a0 <;>
+      simp only [kindMapE, BarterModel.Index.Kind.mapOpt, Except.map, h0, Option.map_none,
+        Option.map_some]
+    spec_part
+  | future z a0 ex =>
+    cases h0 : f a0 <;>
+      simp only [kindMapE, BarterModel.Index.Kind.mapOpt, Except.map, h0, Option.map_none,
+        Option.map_some]
+    spec_part
+  | option z a0 p xx ex st =>
+    cases h0 : f a0 <;>
+      simp only [kindMapE, BarterModel.Index.Kind.mapOpt, Except.map, h0, Option.map_none,
+        Option.map_some]
+    spec_part
+
+end optionView
+
 end BarterModel.Names
